@@ -155,12 +155,32 @@ def extra_reference(path, name):
     return ("exc", KeyError(name))
 
 
-def results_on(path, preload=False):
+READER_FORMS = ["str", "str", "path", "raw", "str", "nofd", "str", "buffered"]
+
+
+def results_on(path, preload=False, form="str"):
+    """form: how the file is handed to the reader -- named (str, pathlib.Path), an unbuffered raw handle
+    (open(p, 'rb', buffering=0)), a buffered handle, or a file-like object without an OS descriptor."""
     from seismic_zfp.read import SgzReader
     res = {}
+    fh = None
     try:
-        r = SgzReader(path, preload=preload)
+        if form == "raw":
+            fh = arg = open(path, "rb", buffering=0)
+        elif form == "buffered":
+            fh = arg = open(path, "rb")
+        elif form == "nofd":
+            from .. import iomodel
+            fh = arg = iomodel.CountingFile(path)
+        elif form == "path":
+            import pathlib
+            arg = pathlib.Path(path)
+        else:
+            arg = path
+        r = SgzReader(arg, preload=preload)
     except Exception as e:
+        if fh is not None:
+            fh.close()
         return None, e
     try:
         for name, thunk in fixed_ops(r):
@@ -173,6 +193,11 @@ def results_on(path, preload=False):
             r.close()
         except Exception:
             pass
+        if fh is not None:
+            try:
+                fh.close()
+            except Exception:
+                pass
     return res, None
 
 
@@ -237,7 +262,9 @@ def check_images(case, ctx, writes, final_path, d):
         case["point_preload"] = preload
         case["obs"] = {"hash_present": img[960:980] == final[960:980] and len(img) >= 980}
         ctx.mark_current(case)
-        res, err = results_on(p, preload=preload)
+        form = case["point_form"] if only is not None and "point_form" in case else READER_FORMS[(pi // 2 + case.get("pl", 0)) % len(READER_FORMS)]
+        case["point_form"] = form
+        res, err = results_on(p, preload=preload, form=form)
         n_eval += 1
         if kind == "length":
             where = "header" if k < 8192 else "body"
@@ -256,7 +283,7 @@ def check_images(case, ctx, writes, final_path, d):
             if ref[name][0] != "ok" or not same(v, ref[name][1]):
                 mname = name.split("(")[0]
                 vio = Violation(f"partial-file-differs:{mname}",
-                                f"{case['route']}: image at {pt} ({len(img)} of {len(final)} bytes), preload={preload}: {name} returned a value "
+                                f"{case['route']}: image at {pt} ({len(img)} of {len(final)} bytes), preload={preload}, file given as {form}: {name} returned a value "
                                 f"that differs from the complete file's")
                 kid = ctx.known.match(ctx.open_known, ctx.prop, case, vio)
                 if kid is not None:
